@@ -142,6 +142,8 @@ class Recorder:
         if out == 'raise':
             raise CompileBoom('planned compile error')
         units = UnpicklableUnits() if out == 'unp' else 'units'
+        if out == 'rux':          # a reply the SERVER cannot unpickle (pickle.loads(data) in BaseWorker.call)
+            units = BoomOnLoad('units')
         if out == 'nostate':
             return units, None
         return units, CState(ns, poison=(out == 'spf'))
@@ -159,6 +161,8 @@ class Recorder:
             cstate.tok = ns
             raise CompileBoom('planned compile error after mutating the state in place')
         units = UnpicklableUnits() if out == 'unp' else 'units'
+        if out == 'rux':
+            units = BoomOnLoad('units')
         return units, CState(ns, poison=(out == 'spf'))
 
 
@@ -254,6 +258,11 @@ class _ServerConn:
         _worker_proc().worker(self.key, 0, self.rig.wmods[self.idx].get_handler)
         rid, data = _FakeWorkerConnection.replies.pop(self.key)
         assert rid == self.n
+        if getattr(self.rig, 'cancel_next', False):
+            # the caller is cancelled while the request is in flight: the worker has
+            # processed it, the reply is never looked at
+            self.rig.cancel_next = False
+            raise asyncio.CancelledError()
         return bytes(data)
 
 
